@@ -2,6 +2,7 @@ package rules
 
 import (
 	"fmt"
+	"go/constant"
 	"go/token"
 	"go/types"
 	"reflect"
@@ -164,37 +165,88 @@ func checkC18(p *core.Program, r *core.Report) {
 	}
 	// sessionEnvironment.DefaultLanguage
 	{
-		var contactRet, baseRet *ssa.Return
+		// outcomes: the returns of the contact's language, each with the branch edges it depends on. The language may
+		// come back through a helper of the package that returns (language, ok): then the outcome is each return of
+		// the helper whose ok may be true, under the helper's own guards plus the guards of the caller's return.
+		type outcome struct {
+			ret   *ssa.Return
+			conds []core.CondEdge
+		}
+		isContactLang := func(v ssa.Value) bool {
+			c, ok := v.(*ssa.Call)
+			if !ok {
+				return false
+			}
+			o := core.CalleeObj(&c.Call)
+			return o != nil && core.ObjName(o) == "flows.Contact.Language"
+		}
+		var contactRets []outcome
+		var baseRet *ssa.Return
+		unknown := ""
 		for _, ret := range core.Returns(defLang) {
-			c, ok := ret.Results[0].(*ssa.Call)
+			outer := core.ControllingConds(ret.Block())
+			if isContactLang(ret.Results[0]) {
+				contactRets = append(contactRets, outcome{ret, outer})
+				continue
+			}
+			if c, ok := ret.Results[0].(*ssa.Call); ok && c.Call.IsInvoke() && c.Call.Method.Name() == "DefaultLanguage" {
+				baseRet = ret
+				continue
+			}
+			ex, ok := ret.Results[0].(*ssa.Extract)
 			if !ok {
 				continue
 			}
-			if o := core.CalleeObj(&c.Call); o != nil && core.ObjName(o) == "flows.Contact.Language" {
-				contactRet = ret
-			} else if c.Call.IsInvoke() && c.Call.Method.Name() == "DefaultLanguage" {
-				baseRet = ret
+			hc, ok := ex.Tuple.(*ssa.Call)
+			if !ok {
+				continue
+			}
+			g := hc.Call.StaticCallee()
+			if g == nil || len(g.Blocks) == 0 || core.FuncPkgPath(g) != core.FuncPkgPath(defLang) {
+				continue
+			}
+			okIdx := -1
+			for _, ce := range outer {
+				if ex2, isEx := ce.Cond.(*ssa.Extract); isEx && ex2.Tuple == ex.Tuple && ce.Taken {
+					okIdx = ex2.Index
+				}
+			}
+			if okIdx < 0 {
+				continue
+			}
+			for _, in := range core.Returns(g) {
+				if k, isC := in.Results[okIdx].(*ssa.Const); isC && k.Value != nil && !constant.BoolVal(k.Value) {
+					continue // ok == false: the caller does not return this value
+				}
+				if !isContactLang(in.Results[ex.Index]) {
+					unknown = "the helper " + g.Name() + " reports success with a value that is not the contact's language"
+					continue
+				}
+				contactRets = append(contactRets, outcome{in, append(append([]core.CondEdge{}, outer...), core.ControllingConds(in.Block())...)})
 			}
 		}
-		if r.Check(contactRet != nil && baseRet != nil, "R1", "sessionEnvironment.DefaultLanguage/two-outcomes", p.Pos(defLang.Pos()), "contact language or the base environment's default", "DefaultLanguage no longer chooses between the contact language and the base default") {
-			hasNotNilContact, hasLang, hasAllowed := false, false, false
-			for _, ce := range core.ControllingConds(contactRet.Block()) {
-				switch c := ce.Cond.(type) {
-				case *ssa.BinOp:
-					if (c.Op == token.NEQ && ce.Taken) || (c.Op == token.EQL && !ce.Taken) {
-						if core.IsNilConst(c.X) || core.IsNilConst(c.Y) {
-							hasNotNilContact = true
+		if unknown != "" {
+			r.Unknown("R1", "sessionEnvironment.DefaultLanguage/two-outcomes", p.Pos(defLang.Pos()), unknown)
+		}
+		if r.Check(len(contactRets) > 0 && baseRet != nil, "R1", "sessionEnvironment.DefaultLanguage/two-outcomes", p.Pos(defLang.Pos()), "contact language or the base environment's default", "DefaultLanguage no longer chooses between the contact language and the base default") {
+			for _, oc := range contactRets {
+				hasNotNilContact, hasLang, hasAllowed := false, false, false
+				for _, ce := range oc.conds {
+					switch c := ce.Cond.(type) {
+					case *ssa.BinOp:
+						if (c.Op == token.NEQ && ce.Taken) || (c.Op == token.EQL && !ce.Taken) {
+							if core.IsNilConst(c.X) || core.IsNilConst(c.Y) {
+								hasNotNilContact = true
+							}
+							if isNilLanguage(c.Y) || isNilLanguage(c.X) {
+								hasLang = true
+							}
 						}
-						if isNilLanguage(c.Y) || isNilLanguage(c.X) {
-							hasLang = true
-						}
-					}
-				case *ssa.Call:
-					if o := core.CalleeObj(&c.Call); o != nil && core.ObjName(o) == "slices.Contains" && ce.Taken {
-						if invokeRecvFrom(c.Call.Args[0], "AllowedLanguages") {
-							for v := range core.BackSlice(c.Call.Args[1], nil) {
-								if cc, ok := v.(*ssa.Call); ok {
-									if o2 := core.CalleeObj(&cc.Call); o2 != nil && core.ObjName(o2) == "flows.Contact.Language" {
+					case *ssa.Call:
+						if o := core.CalleeObj(&c.Call); o != nil && core.ObjName(o) == "slices.Contains" && ce.Taken {
+							if invokeRecvFrom(c.Call.Args[0], "AllowedLanguages") {
+								for v := range core.BackSlice(c.Call.Args[1], nil) {
+									if isContactLang(v) {
 										hasAllowed = true
 									}
 								}
@@ -202,9 +254,9 @@ func checkC18(p *core.Program, r *core.Report) {
 						}
 					}
 				}
+				r.Check(hasNotNilContact && hasLang && hasAllowed, "R1", "sessionEnvironment.DefaultLanguage/contact-language-guards", p.Pos(oc.ret.Pos()), "contact != nil, language set, language allowed",
+					fmt.Sprintf("the contact's language is used without all of: contact present (%v), language set (%v), language in the allowed list (%v)", hasNotNilContact, hasLang, hasAllowed))
 			}
-			r.Check(hasNotNilContact && hasLang && hasAllowed, "R1", "sessionEnvironment.DefaultLanguage/contact-language-guards", p.Pos(contactRet.Pos()), "contact != nil, language set, language allowed",
-				fmt.Sprintf("the contact's language is used without all of: contact present (%v), language set (%v), language in the allowed list (%v)", hasNotNilContact, hasLang, hasAllowed))
 		}
 	}
 
@@ -224,25 +276,14 @@ func checkC18(p *core.Program, r *core.Report) {
 		return
 	}
 	langElem := git.Call.Args[0]
-	// loop element from the languages list with forward index
-	fwd := false
+	// loop element from the languages list with forward index (range form or index form of the loop)
 	var idx ssa.Value
 	for v := range core.BackSlice(langElem, nil) {
 		if ia, ok := v.(*ssa.IndexAddr); ok {
 			idx = ia.Index
 		}
 	}
-	if inc, ok := idx.(*ssa.BinOp); ok && inc.Op == token.ADD {
-		if k, isC := core.ConstInt(inc.Y); isC && k == 1 {
-			if phi, ok := inc.X.(*ssa.Phi); ok {
-				for _, ev := range phi.Edges {
-					if k0, isC := core.ConstInt(ev); isC && k0 == -1 {
-						fwd = true
-					}
-				}
-			}
-		}
-	}
+	fwd, loopHeader := c18ForwardIndex(idx)
 	r.Check(fwd, "R2", "getText/forward-walk", p.Pos(git.Pos()), "languages are tried from the first preference", "the preference list is not walked forward from its first element")
 	r.Check(core.StripConv(git.Call.Args[1]) == ssa.Value(uuidP) && core.StripConv(git.Call.Args[2]) == ssa.Value(keyP), "R2", "getText/lookup-item-and-key", p.Pos(git.Pos()), "GetItemTranslation(lang, uuid, key) with the caller's item and key", "the translation is looked up for a different item or property than requested")
 	// default list
@@ -259,40 +300,9 @@ func checkC18(p *core.Program, r *core.Report) {
 	r.Check(defOK, "R2", "getText/default-preference-list", p.Pos(getText.Pos()), "languages == nil => getLanguages()", "the run's preference list is not used when no explicit list is given")
 	// returns
 	var baseInLoop, transRet, afterLoop bool
-	loopHeader := func() *ssa.BasicBlock {
-		if inc, ok := idx.(*ssa.BinOp); ok {
-			return inc.Block()
-		}
-		return nil
-	}()
 	for _, ret := range core.Returns(getText) {
 		first := core.StripConv(ret.Results[0])
-		inLoop := loopHeader != nil && loopHeader.Dominates(ret.Block()) && ret.Block() != loopHeader
-		// is this return on the loop-exit edge?
-		exitEdge := false
-		for _, ce := range core.ControllingConds(ret.Block()) {
-			if bo, ok := ce.Cond.(*ssa.BinOp); ok && bo.Op == token.LSS && !ce.Taken && bo.X == idx {
-				exitEdge = true
-			}
-		}
-		switch {
-		case first == ssa.Value(nativeP) && inLoop && !exitEdge:
-			// controlled by lang == flow language
-			for _, ce := range core.ControllingConds(ret.Block()) {
-				bo, ok := ce.Cond.(*ssa.BinOp)
-				if !ok || bo.Op != token.EQL || !ce.Taken {
-					continue
-				}
-				isLang := func(v ssa.Value) bool { return v == langElem }
-				isFlowLang := func(v ssa.Value) bool {
-					c, ok := v.(*ssa.Call)
-					return ok && c.Call.IsInvoke() && c.Call.Method.Name() == "Language"
-				}
-				if (isLang(bo.X) && isFlowLang(bo.Y)) || (isLang(bo.Y) && isFlowLang(bo.X)) {
-					baseInLoop = true
-				}
-			}
-		case first == ssa.Value(git) || derivesOnlyFrom(first, git):
+		if first == ssa.Value(git) || derivesOnlyFrom(first, git) {
 			// non-empty edge and language is the loop element
 			nonEmpty := false
 			for _, ce := range core.ControllingConds(ret.Block()) {
@@ -313,9 +323,68 @@ func checkC18(p *core.Program, r *core.Report) {
 			} else {
 				r.Bad("R2", "getText/translation-return", p.Pos(ret.Pos()), fmt.Sprintf("a translation is returned without the non-empty test (%v) or with a language other than the one it was found for", nonEmpty))
 			}
-		case first == ssa.Value(nativeP):
-			afterLoop = true
 		}
+	}
+	// onlyNative: every path from block b ends in a return of the native text, without looking up a translation (and so
+	// without going round the loop again, whose body holds the lookup)
+	onlyNative := func(b *ssa.BasicBlock) bool {
+		reach := core.Reachable(b, nil)
+		if reach[git.Block()] {
+			return false
+		}
+		n := 0
+		for _, ret := range core.Returns(getText) {
+			if reach[ret.Block()] {
+				if core.StripConv(ret.Results[0]) != ssa.Value(nativeP) {
+					return false
+				}
+				n++
+			}
+		}
+		return n > 0
+	}
+	// the walk stops at the flow language: a test `lang == flow language` whose equal edge only leads to a return of the
+	// native text (a return in the loop, or a break to the final return) and whose unequal edge guards the lookup (so
+	// the flow language is recognised before a translation stored under it could be taken)
+	isFlowLang := func(v ssa.Value) bool {
+		c, ok := v.(*ssa.Call)
+		return ok && c.Call.IsInvoke() && c.Call.Method.Name() == "Language"
+	}
+	for _, ce := range core.ControllingConds(git.Block()) {
+		bo, ok := ce.Cond.(*ssa.BinOp)
+		if !ok || !((bo.Op == token.EQL && !ce.Taken) || (bo.Op == token.NEQ && ce.Taken)) {
+			continue
+		}
+		if !((bo.X == langElem && isFlowLang(bo.Y)) || (bo.Y == langElem && isFlowLang(bo.X))) {
+			continue
+		}
+		for _, ref := range *bo.Referrers() {
+			br, ok := ref.(*ssa.If)
+			if !ok {
+				continue
+			}
+			eqSucc := br.Block().Succs[0]
+			if bo.Op == token.NEQ {
+				eqSucc = br.Block().Succs[1]
+			}
+			if onlyNative(eqSucc) {
+				baseInLoop = true
+			}
+		}
+	}
+	// after the loop: the exit edge of the loop condition (index < len) only leads to a return of the native text
+	exitKnown := false
+	if loopHeader != nil {
+		if br, ok := loopHeader.Instrs[len(loopHeader.Instrs)-1].(*ssa.If); ok {
+			if bo, ok := br.Cond.(*ssa.BinOp); ok && bo.Op == token.LSS && bo.X == idx {
+				exitKnown = true
+				afterLoop = onlyNative(loopHeader.Succs[1])
+			}
+		}
+	}
+	if !exitKnown && fwd {
+		r.Unknown("R2", "getText/native-after-loop", p.Pos(getText.Pos()), "the exit edge of the walk over the preference list was not recognised (expected index < len(languages) in the loop header)")
+		afterLoop = true
 	}
 	r.Check(baseInLoop, "R2", "getText/base-language-wins-in-order", p.Pos(getText.Pos()), "native text returned as soon as the walk reaches the flow language", "the walk does not stop at the flow's base language: a later preference with a translation overrides the base language although it ranks lower")
 	r.Check(transRet, "R2", "getText/non-empty-translation-wins", p.Pos(getText.Pos()), "first non-empty translation returned with its language", "no return of a non-empty translation found")
@@ -643,6 +712,46 @@ func isNilLanguage(v ssa.Value) bool {
 		}
 	}
 	return false
+}
+
+// c18ForwardIndex: idx walks a slice from its first element in steps of one. Two forms are known: the range loop
+// (idx = phi(-1, idx) + 1, computed in the loop header) and the index loop (idx = phi(0, idx + 1), the phi of the
+// loop header). Returns the loop header as well.
+func c18ForwardIndex(idx ssa.Value) (bool, *ssa.BasicBlock) {
+	plusOne := func(v ssa.Value) (ssa.Value, bool) {
+		if bo, ok := v.(*ssa.BinOp); ok && bo.Op == token.ADD {
+			if k, isC := core.ConstInt(bo.Y); isC && k == 1 {
+				return bo.X, true
+			}
+		}
+		return nil, false
+	}
+	if x, ok := plusOne(idx); ok {
+		if phi, ok := x.(*ssa.Phi); ok {
+			for _, ev := range phi.Edges {
+				if k0, isC := core.ConstInt(ev); isC && k0 == -1 {
+					return true, idx.(*ssa.BinOp).Block()
+				}
+			}
+		}
+		return false, idx.(*ssa.BinOp).Block()
+	}
+	if phi, ok := idx.(*ssa.Phi); ok {
+		start, step := false, true
+		for _, ev := range phi.Edges {
+			if k0, isC := core.ConstInt(ev); isC {
+				if k0 == 0 {
+					start = true
+				} else {
+					step = false
+				}
+			} else if x, ok := plusOne(ev); !ok || x != ssa.Value(phi) {
+				step = false
+			}
+		}
+		return start && step, phi.Block()
+	}
+	return false, nil
 }
 
 // derivesOnlyFrom: v is call (possibly converted / through a phi with itself).
